@@ -12,7 +12,7 @@ From Coq Require Import List Bool String.
 From UV.Base Require Import Cop Res.
 From UV.Gen Require Import Tables.
 From UV.Py Require Import PyStr.
-From UV.Schemes Require Import Common Generic LegacyOpenssl Semver SemverProofs Gem GemProofs Rpm RpmProofs Debian DebianProofs DebianHash Arch ArchProofs Openssl Pypi Gentoo GentooProofs GentooHash.
+From UV.Schemes Require Import Common Generic LegacyOpenssl Semver SemverProofs Gem GemProofs Rpm RpmProofs Debian DebianProofs DebianHash Arch ArchProofs Openssl Pypi Gentoo GentooProofs GentooHash Nuget NugetOrder Conan NugetConanProofs.
 Import ListNotations.
 
 Lemma all_vclasses_complete c : In c all_vclasses.
@@ -84,6 +84,15 @@ Theorem C12_gentoo_alpine_equal_versions_hash_alike :
   forall a b, gok a = true -> gok b = true -> gentoo_cmp a b = Eq -> gentoo_hasheq a b = true.
 Proof. exact gentoo_eq_hash. Qed.
 
+(* nuget: equal versions (build metadata aside) have the same hashed tuple *)
+Theorem C12_nuget_equal_versions_hash_alike :
+  forall a b, nu_ok a = true -> nu_ok b = true -> nuget_eq a b = true -> nuget_hasheq a b = true.
+Proof. exact nuget_eq_hash. Qed.
+
+(* conan: == and the hash both use the significant items, the pre-release and the build *)
+Theorem C12_conan_equal_versions_hash_alike : forall a b, o_eq (conan_ops a b) = true -> conan_hasheq a b = true.
+Proof. exact conan_eq_hash. Qed.
+
 Print Assumptions C12_every_version_class_is_hashable_and_frozen.
 Print Assumptions C12_containers_hash_what_they_compare.
 Print Assumptions C12_generic_equal_versions_hash_alike.
@@ -96,3 +105,5 @@ Print Assumptions C12_alpm_equal_versions_hash_alike.
 Print Assumptions C12_openssl_equal_versions_hash_alike.
 Print Assumptions C12_pypi_equal_versions_hash_alike.
 Print Assumptions C12_gentoo_alpine_equal_versions_hash_alike.
+Print Assumptions C12_nuget_equal_versions_hash_alike.
+Print Assumptions C12_conan_equal_versions_hash_alike.
